@@ -81,6 +81,21 @@ CHECKS = {
             dict(harness="C18_T1", cover=["accepted", "write-fault"], bounds="52 templates x one symbolic hole x symbolic Config x symbolic write-fault offset"),
         ],
     },
+    "C07": {
+        "quick": [
+            dict(harness="C07_T0", cover=["complete"], bounds="52 concrete templates as first command, followed by a second command"),
+            dict(harness="C07_F3", cover=["complete", "comment-only"], bounds="every 3-rune input over D that is a complete command on its own, followed by a second command"),
+            dict(harness="C07_T1", cover=["complete"], bounds="52 templates x one symbolic hole, followed by a second command"),
+            dict(harness="C07_Blank", bounds="1..3 blank lines (optionally with one symbolic blank) before a command"),
+        ],
+        "thorough": [
+            dict(harness="C07_T0", cover=["complete"]),
+            dict(harness="C07_F2", cover=["complete"]),
+            dict(harness="C07_F3", cover=["complete", "comment-only"]),
+            dict(harness="C07_T1", cover=["complete"]),
+            dict(harness="C07_Blank"),
+        ],
+    },
     "C10": {
         "quick": [
             dict(harness="C10_F2", cover=["fault", "fault-not-reached"], bounds="all 2-rune inputs over D x every fault position k in [0,2] (k symbolic)"),
@@ -232,6 +247,8 @@ META = {
                 note="trees come from the parser on bounded inputs; Width in 0..8; sources with a line continuation inside a word or inside a here-document are excluded (go.sh keeps such words as two literals; the properties exclude continuations inside words); known finding KF-C05-lone-backslash"),
     "C18": dict(text="On every accepting path within the bounds and every Config bit pattern: printing the re-parsed output is byte-identical (fix-point), printing the same tree twice is identical, the tree skeleton (incl. Sep fields) is unchanged by Fprint, and a writer failing at any symbolic offset makes Fprint return an error. " + BOUNDED,
                 note="outputs are shorter than bufio's 4096-byte buffer, so the writer sees one Write at Flush (the multi-flush path is not exercised); trees with a lone trailing backslash are checked for purity/determinism only (see KF-C05-lone-backslash)"),
+    "C07": dict(text="Metamorphic stream check on every path within the bounds: if A alone is accepted and fully consumed, then on the stream A<newline>B the first call returns exactly A's commands and comments and leaves the scanner at the first character of B, and the second call returns B and consumes it through its newline; blank lines give empty results and consume one line. " + BOUNDED,
+                note="A ranges over bounded inputs/templates; B is one fixed simple command; A ending in a backslash or line continuation and comment-only lines (skipped together with following blank lines, as the repository's tests pin) are excluded"),
     "C10": dict(text="The fault position is a solver variable: for every position at which the RuneScanner (or io.Reader) starts failing during the call, ParseCommands returns a non-nil error that is the injected error, on every feasible path within the bounds. " + BOUNDED,
                 note="single persistent fault (once failing, always failing); faults that only a goroutine left behind after the return would hit are not counted (that is C06); deterministic baton schedule"),
     "C11": dict(text="Eval agrees with a C reference evaluator (precedence, associativity, laziness, effects on a map store, faults) for every 64-bit value of the symbolic operands on all shapes within the bounds; value obligations are discharged as identical terms or by z3. " + BOUNDED,
